@@ -5,7 +5,7 @@ N_QUICK, N_THOROUGH = 400, 4000
 COMMON = {"zero_bounds": True}
 ASSUMPTIONS = ["objectives finite-valued on the box (no NaN)", "SciPy approx_derivative keeps its stencil inside the bounds it is given (monitored on every call)"]
 RULE = ("random runs: convex and non-convex families and the package's benchmarks, all box kinds (bounds with non-representable "
-        "values, a quarter of the finite bounds exactly zero), starts given as float32/float16 arrays, all gradient modes, random maxcor/maxls/maxiter/maxfun; every point received by fun/jac/callback and the result "
+        "values, a quarter of the finite bounds exactly zero), starts given as float32/float16 arrays, objectives that run a nested bounded finite-difference optimisation of their own, all gradient modes, random maxcor/maxls/maxiter/maxfun; every point received by fun/jac/callback and the result "
         "is tested with exact comparisons; non-trivial = at least one iteration performed; plus calls of get_bounds on generated valid and "
         "malformed inputs (None entries, equal/reversed/NaN/infinite bounds, wrong lengths, empty start, start outside by one ulp), each "
         "compared with the Lean model of the validation (accept/reject, error kind, arrays bit for bit)")
@@ -17,4 +17,5 @@ def features(r):
             "ftarget": "none", "gtol_callable": False,
             "scaler": r.choice(["none", "none", "const"]),
             "x0_dtype": r.choice(["float64"] * 5 + ["float32", "float32", "float16"]),
+            "nested_inner": r.random() < 0.12,
             "update": "none"}
